@@ -1,7 +1,108 @@
+/-
+  CB.Driver.C17 — op lines of property C17 (radix strings). Every line prints `L1 ;; L0`:
+  L1 = limb-level model of the crate's decoder / encoder (CB.Model.Radix part 2),
+  L0 = what the property demands (canonical numeral / value of the numeral, part 1).
+-/
 import CB.Driver.Util
-namespace CB
+import CB.Model.Radix
+namespace CB.Radix
+open CB
 
-/-- operations of property C17 (op names start with `c17.`) -/
-def dispatchC17 : Dispatch := fun _ _ => none
+def errTok : Err → String
+  | .empty => "err:Empty"
+  | .invalidDigit => "err:InvalidDigit"
+  | .inputSize => "err:InputSize"
+  | .precision => "err:Precision"
+  | .panic => "panic"
+
+def radixOk (r : Nat) : Bool := radixMin ≤ r && r ≤ radixMax
+
+def both (l1 l0 : String) : Option String := some (l1 ++ " ;; " ++ l0)
+
+/-- L0 of a parse into `n` limbs, printed by `pr` -/
+def specFixedTok (n r : Nat) (s : List Nat) : String :=
+  if !radixOk r then "panic" else
+  match specParseFixed r n s with
+  | .ok v => natToHex v
+  | .error e => errTok e
+
+def lenTok (n v : Nat) : String := s!"{n}:{natToHex v}"
+
+end CB.Radix
+
+namespace CB
+open CB.Radix
+
+def dispatchC17 : Dispatch := fun op args =>
+  match op, args with
+  | "c17.u.parse", [n, r, s] | "c17.u.parse_num", [n, r, s] =>
+    match n.toNat?, r.toNat?, tokToBytes? s with
+    | some n, some r, some s =>
+      let l1 := match uintFromStr n r s with
+        | .ok l => limbsHex l
+        | .error e => errTok e
+      both l1 (specFixedTok n r s)
+    | _, _, _ => badArgs
+  | "c17.u.fmt", [n, r, x] | "c17.b.fmt", [n, r, x] =>
+    match n.toNat?, r.toNat?, hexToNat? x with
+    | some n, some r, some x =>
+      let l1 := match encodeToString r (toLimbs n x) with
+        | .ok bs => bytesToTok bs
+        | .error e => errTok e
+      let l0 := if !radixOk r then "panic" else bytesToTok (specFormat r (x % B ^ n))
+      both l1 l0
+    | _, _, _ => badArgs
+  | "c17.b.parse", [r, s] =>
+    match r.toNat?, tokToBytes? s with
+    | some r, some s =>
+      let l1 := match boxedFromStr r s with
+        | .ok l => limbsHexLen l
+        | .error e => errTok e
+      let l0 := if !radixOk r then "panic" else
+        match specParse r s with
+        | .ok v => lenTok (max 1 (limbsNeeded v)) v
+        | .error e => errTok e
+      both l1 l0
+    | _, _ => badArgs
+  | "c17.b.parse_prec", [r, p, s] =>
+    match r.toNat?, p.toNat?, tokToBytes? s with
+    | some r, some p, some s =>
+      let l1 := match boxedFromStrPrec r p s with
+        | .ok l => limbsHexLen l
+        | .error e => errTok e
+      let l0 := if !radixOk r then "panic" else
+        match specParsePrec r p s with
+        | .ok v => lenTok (precLimbs p) v
+        | .error e => errTok e
+      both l1 l0
+    | _, _, _ => badArgs
+  | "c17.b.roundtrip", [r, s] =>
+    match r.toNat?, tokToBytes? s with
+    | some r, some s =>
+      let l1 := match boxedFromStr r s with
+        | .ok l => (match encodeToString r l with
+          | .ok bs => bytesToTok bs
+          | .error e => errTok e)
+        | .error e => errTok e
+      let l0 := if !radixOk r then "panic" else
+        match specParse r s with
+        | .ok v => bytesToTok (specFormat r v)
+        | .error e => errTok e
+      both l1 l0
+    | _, _ => badArgs
+  | "c17.b.parse_bits", [r, s] =>
+    match r.toNat?, tokToBytes? s with
+    | some r, some s =>
+      let l1 := match boxedFromStr r s with
+        -- `bits_vartime` on zero limbs indexes `limbs[len - 1]`: panic
+        | .ok l => if l.isEmpty then "panic" else toString (bitLen (val l))
+        | .error e => errTok e
+      let l0 := if !radixOk r then "panic" else
+        match specParse r s with
+        | .ok v => toString (bitLen v)
+        | .error e => errTok e
+      both l1 l0
+    | _, _ => badArgs
+  | _, _ => none
 
 end CB
